@@ -198,6 +198,7 @@ theorem run_keeps {env : Nat → Option Cmd} {relOf : Nat → List Mutex} (hrel 
     exact ih₂ x (ih₁ x hx hn') hn
   | loopX _ _ ih => intro x hx hn; exact ih x hx (by simpa [relSet] using hn)
   | spawn _ _ => intro x hx _; exact hx
+  | icall _ _ _ => intro x hx _; exact hx
   | @call f body h o h₁ t hb _ ih =>
     intro x hx hn
     have hn' : x.m ∉ relOf f := by simpa [relSet] using hn
@@ -396,6 +397,18 @@ theorem an_sound {env : Nat → Option Cmd} {relOf : Nat → List Mutex} {entry 
     have hcb : CallsOk entry (an relOf a []).calls := by simpa [an] using hc
     obtain ⟨hj, _⟩ := ih [] (sub_nil _) hcb
     exact ⟨fun k hk hm => just_mono (fun x hx => by simpa [an] using hx) (hj k hk hm), ⟨L, by simp [an], hs⟩⟩
+  | @icall f body h o h₁ t hb hr ih =>
+    intro L hs hc
+    have hef : Sub (entry f) L := hc f L (by simp [an])
+    obtain ⟨hj, _⟩ := ih (entry f) (Sub.trans hef hs) (hent f body hb)
+    constructor
+    · intro k hk hm
+      obtain ⟨L', hL', hs'⟩ := hj k hk hm
+      refine ⟨L', Or.inr ?_, hs'⟩
+      rcases hL' with hrow | hall
+      · exact ⟨f, body, hb, hrow⟩
+      · exact hall
+    · exact ⟨L, by simp [an], hs⟩
   | @call f body h o h₁ t hb hr ih =>
     intro L hs hc
     have hef : Sub (entry f) L := hc f L (by simp [an])
